@@ -197,8 +197,25 @@ MORE2 = {
     'C05': " FIN: finalizer passes the stream on completely before it merges the stats and calls back, exactly once. The checkpoint directory is os.path.join(checkpoint_path, checkpoint_name) with the name as given.",
     'C18': " (j) the worker processes are not daemonic. (g0) no Barrier / Event / Condition wait of the protocol gives up after a timeout (decided before the channel model is built). (f) also: the test of the collecting loop is constant-true (or `(row := q.get()) is not None`), so the loop ends at the marker only.",
 }
+MORE3 = {
+    'C03': " File dumpers refuse a resource whose path is the descriptor's name and a resource whose output path another resource of the "
+           "package already takes (two clauses of R15); the output path is read after the hash directory is inserted.",
+    'C09': " File dumpers refuse a resource whose output path is 'datapackage.json' or is taken already by another resource of the package "
+           "(R15): sizes and hashes are recorded per file.",
+    'C19': " File dumpers refuse a resource whose output path is 'datapackage.json' (reserved-name clause of R15) or is taken already by "
+           "another resource of the package (unique-path clause).",
+    'C13': " OPT: the reader defaults keep every data line, the schema is inferred with confidence=1 and the inferred fields are given back "
+           "the stream's own headers. The state load keeps per run (descriptors, iterators) is re-created before anything is appended to "
+           "it on every path (R34: a rebinding on another branch is no reset).",
+    'C16': " CAT also: once the scan of concatenate is past the selected run, a further selected resource is refused.",
+    'C10': " CAT: concatenate refuses a selected resource that follows unselected ones after the selected run.",
+    'C11': " The fold of source rows into the index, the full-outer emission and the de-duplication branch are decided on the paths of "
+           "the loop bodies (what is stored where the source value is / is not None; which loop follows the row loop in which mode).",
+    'C14': " VAL: the keep-flag of the validator changes only in the CastError handler and only when the policy answers false; the row is "
+           "yielded exactly when the flag still has its first value (decided on paths, whatever the flag's polarity).",
+}
 for _pid, _c in CHECKS.items():
-    _c['text'] = _c['text'] + MORE.get(_pid, '') + MORE2.get(_pid, '') + GEN
+    _c['text'] = _c['text'] + MORE.get(_pid, '') + MORE2.get(_pid, '') + MORE3.get(_pid, '') + GEN
     if 'generic defect-pattern rules' not in _c['technique']:
         _c['technique'] = _c['technique'] + '; generic defect-pattern rules on the anchored files (shared class state, late-binding closures, groupby runs, run idempotence)'
 
